@@ -1,10 +1,10 @@
 /-
-C15 — `KeysAreNames` is preserved by every modelled command.
+Catalogue model — `KeysAreNames` is preserved by every modelled command.
 -/
-import OG.C15.Invariant
+import OG.Meta.KeysInv
 
-namespace OG.C15
-open OG.Meta
+namespace OG.Meta
+
 
 variable {d : Data}
 
@@ -92,6 +92,26 @@ theorem kn_setDefaultRetentionPolicy (hk : KeysAreNames d) (db rp : String) : Ke
     · exact hk
     · exact kn_setDB hk (fun kr hkr => (hk _ hm).2 kr hkr)
 
+theorem rpsOK_writeBack {dbi : DB} {k newName : String} {r r' : RP} (md : Bool) (h : RPsOK dbi) (hname : r.name = k)
+    (hr' : r'.name = newName) : RPsOK (writeBack dbi k newName r r' md) := by
+  unfold writeBack
+  simp only
+  intro kr hmem
+  split at hmem
+  · simp only at hmem
+    rcases mem_alInsert hmem with rfl | hmem
+    · exact hr'
+    · exact h kr (mem_alErase (mem_alErase hmem))
+  · next hne =>
+    have hnn : newName = r.name := by simpa using hne
+    simp only at hmem
+    rcases mem_alInsert hmem with rfl | hmem
+    · simp [hr', hnn, hname]
+    · exact h kr hmem
+
+theorem writeBack_name (dbi : DB) (k newName : String) (r r' : RP) (md : Bool) : (writeBack dbi k newName r r' md).name = dbi.name := by
+  unfold writeBack; simp only; split <;> rfl
+
 theorem kn_updateRetentionPolicy (hk : KeysAreNames d) (db rp : String) (u : RPUpdate) :
     KeysAreNames (updateRetentionPolicy d db rp u).1 := by
   unfold updateRetentionPolicy
@@ -104,16 +124,16 @@ theorem kn_updateRetentionPolicy (hk : KeysAreNames d) (db rp : String) (u : RPU
     · next k r hr =>
       have hkr := (DB.getRP_ok hr).1
       have hname : r.name = k := (hk _ hm).2 _ hkr
-      simp only
-      repeat' split
-      all_goals first
-        | exact hk
-        | (apply kn_setDB hk
-           intro kr hmem
-           simp only at hmem
-           rcases mem_alInsert hmem with rfl | hmem
-           · first | rfl | (simp_all)
-           · first | exact (hk _ hm).2 kr hmem | exact (hk _ hm).2 kr (mem_alErase (mem_alErase hmem)))
+      split
+      · exact hk
+      · simp only
+        split
+        · exact hk
+        · intro x hx
+          rcases mem_setDB hx with rfl | hx
+          · refine ⟨?_, rpsOK_writeBack _ (hk _ hm).2 hname rfl⟩
+            simp only [writeBack_name]
+          · exact hk x hx
 
 theorem kn_createMeasurement (hk : KeysAreNames d) (pick : Nat) (db rp m : String) (ski : Option ShardKey) (e : Nat) (fs : List FieldReq) :
     KeysAreNames (createMeasurement pick d db rp m ski e fs).1 := by
@@ -325,4 +345,4 @@ theorem kn_applyAll (hk : KeysAreNames d) (cs : List Cmd) : KeysAreNames (applyA
   | nil => exact hk
   | cons c cs ih => exact ih (kn_apply hk c)
 
-end OG.C15
+end OG.Meta
